@@ -206,7 +206,25 @@ func c17EndToEnd(ctx *Ctx, r *Rng) {
 		run := runs[r.Intn(len(runs))]
 		doc = strings.Replace(doc, h.name+" "+q, h.name+run+q+trail[r.Intn(len(trail))], 1)
 		ctx.Cov.Hit(map[bool]string{true: "blank run with a tab", false: "blank run of spaces"}[strings.Contains(run, "\t")])
-		res := RunProject(SingleFile([]byte(doc)), false)
+		// the document is handed over as the caller's own byte slice, and read twice: reading must neither change
+		// the bytes nor its own second result ("what is written is what the catalog has", every time it is read)
+		own := []byte(doc)
+		proj := SingleFile(own)
+		res := RunProject(proj, false)
+		if string(own) != doc {
+			in := projectInput(SingleFile([]byte(doc)))
+			in["op"] = "e2e"
+			ctx.Violate(Violation{Kind: "wrong-output", Site: "e2e " + h.name, What: fmt.Sprintf("reading the document changed the caller's bytes: %q became %q", doc, string(own)),
+				Input: in, Observed: string(own), Expected: doc, Signature: "e2e-input-modified"})
+			continue
+		}
+		if again := RunProject(proj, false); again.Verdict() != res.Verdict() || !bytes.Equal(again.JSON, res.JSON) {
+			in := projectInput(SingleFile([]byte(doc)))
+			in["op"] = "e2e"
+			ctx.Violate(Violation{Kind: "wrong-output", Site: "e2e " + h.name, What: "reading the same document a second time gives another result: " + res.Verdict() + " / " + again.Verdict(),
+				Input: in, Signature: "e2e-second-reading"})
+			continue
+		}
 		cases++
 		ctx.Cov.Count([]byte(h.name+" "+val), bytes.ContainsAny(v, "\\\""))
 		ctx.Cov.Hit("end-to-end " + h.name)
